@@ -366,8 +366,9 @@ FINISHED_PCS = {9, 10, 14}
 # ------------------------------------------------------------------ running one scenario on the real code
 class Comp:
     def __init__(self, path):
-        self.path = str(path)
-        self.buf = str(Path(path).parent / ("panoptica_aggregator_tmp_" + Path(path).name))
+        self.given = str(path)                       # what is handed to the constructor
+        self.path = str(path) if "." in Path(path).name else str(path) + ".tsv"   # documented: ".tsv" is appended
+        self.buf = str(Path(self.path).parent / ("panoptica_aggregator_tmp_" + Path(self.path).name))
         self.h = None
         self.calls = []
         self.ctor = None        # Worker or "sync"
@@ -393,7 +394,7 @@ class Runner:
 
     # -- files
     def prepare(self, c, spec):
-        for p in (c.path, c.buf):
+        for p in (c.path, c.buf, c.given):
             if os.path.exists(p):
                 os.remove(p)
         init = spec.get("init", "absent")
@@ -426,7 +427,7 @@ class Runner:
         ev = self.evaluators[h](lambda: self.inst.sched)
 
         def build():
-            return self.inst.PA.Panoptica_Aggregator(ev, c.path)
+            return self.inst.PA.Panoptica_Aggregator(ev, c.given)
         if sync:
             n0 = len(self.inst.atexit.handlers)
             try:
@@ -535,7 +536,19 @@ class Runner:
         self.n += 1
         d = self.workdir / f"r{self.n % 64}"
         d.mkdir(parents=True, exist_ok=True)
-        comps = [Comp(d / spec["file"]) for spec in scen["comps"]]
+        # an extension-less path must not contain a '.' anywhere (the code looks for "." in the whole path):
+        # run such scenarios with relative paths from inside the scratch directory
+        rel = any("." not in spec["file"] for spec in scen["comps"])
+        cwd = os.getcwd()
+        if rel:
+            os.chdir(d)
+        try:
+            return self._run(scen, [Comp(Path(spec["file"]) if rel else d / spec["file"]) for spec in scen["comps"]])
+        finally:
+            if rel:
+                os.chdir(cwd)
+
+    def _run(self, scen, comps):
         self.cur_trace = trace = []
         for c, spec in zip(comps, scen["comps"]):
             self.prepare(c, spec)
